@@ -1,4 +1,5 @@
 import ServiceModel.Proofs.Genesis
+import ServiceModel.Proofs.EarnKeys
 /-!
 # C19 — State survives export and re-import; zero-height export returns all escrow
 
@@ -13,24 +14,26 @@ open SM Map
 
 variable {cfg : Config} {p : Params} {h0 t0 : Int}
 
-/-- The preparation cannot fail in a reachable state and leaves the request escrow empty.
-    `hprov`: no account with unwithdrawn earnings is the escrow account itself — a module account has no key, so it
-    cannot sign a response and never earns (assumption E1); stated as a hypothesis, not proved as an invariant. -/
-theorem prep_succeeds_and_empties_escrow (hc : CfgOK cfg p) {s : State} (hr : Reachable cfg p h0 t0 s)
-    (hprov : ∀ a, (get s.earned a).isSome → a ≠ s.cfg.escrow) :
+/-- no account with unwithdrawn earnings is the escrow account: only the signer of an accepted response earns, and a
+    module account has no key (`WF`, assumption E1) — an invariant (`earnOK`), not a hypothesis -/
+theorem earners_are_not_escrow {s : State} (hr : Reachable cfg p h0 t0 s) :
+    ∀ a, (get s.earned a).isSome → a ≠ s.cfg.escrow :=
+  fun a ha e => earnOK hr a ha (Or.inl e)
+
+/-- The preparation cannot fail in a reachable state and leaves the request escrow empty. -/
+theorem prep_succeeds_and_empties_escrow (hc : CfgOK cfg p) {s : State} (hr : Reachable cfg p h0 t0 s) :
     (prep s).panic = none ∧ balOf (prep s).s.bank.bal s.cfg.escrow = 0 := by
-  obtain ⟨hp, b', hs, hb, _, _⟩ := prep_spec (reachable_inv hc hr) hprov
+  obtain ⟨hp, b', hs, hb, _, _⟩ := prep_spec (reachable_inv hc hr) (earners_are_not_escrow hr)
   refine ⟨hp, ?_⟩
   rw [hs]; exact hb
 
 /-- Every pending request's fee goes back to the consumer of its context. -/
 theorem prep_refunds_every_pending_fee (hc : CfgOK cfg p) {s : State} (hr : Reachable cfg p h0 t0 s)
-    (hprov : ∀ a, (get s.earned a).isSome → a ≠ s.cfg.escrow)
     (r : ReqId) (hact : r ∈ s.activeI) :
     ∃ q x, get s.reqs r = some q ∧ get s.ctxs r.ctx = some x ∧
       (q.fee ≠ 0 → Effect.transfer s.cfg.escrow x.cons q.fee ∈ (prep s).effs) := by
   have h := reachable_inv hc hr
-  obtain ⟨_, _, _, _, hfee, _⟩ := prep_spec h hprov
+  obtain ⟨_, _, _, _, hfee, _⟩ := prep_spec h (earners_are_not_escrow hr)
   obtain ⟨q, hq⟩ := Option.isSome_iff_exists.mp (h.x.activeReq r hact)
   obtain ⟨x, hx, _, _⟩ := h.x.reqCtx r q hq
   refine ⟨q, x, hq, hx, fun hne => ?_⟩
@@ -42,11 +45,10 @@ theorem prep_refunds_every_pending_fee (hc : CfgOK cfg p) {s : State} (hr : Reac
   exact hfee _ hm _ hv hne
 
 /-- Every unwithdrawn earning goes to its provider. -/
-theorem prep_refunds_every_earning (hc : CfgOK cfg p) {s : State} (hr : Reachable cfg p h0 t0 s)
-    (hprov : ∀ a, (get s.earned a).isSome → a ≠ s.cfg.escrow) (pv : Addr) (n : Nat)
+theorem prep_refunds_every_earning (hc : CfgOK cfg p) {s : State} (hr : Reachable cfg p h0 t0 s) (pv : Addr) (n : Nat)
     (he : get s.earned pv = some n) (hn : n ≠ 0) :
     Effect.transfer s.cfg.escrow pv n ∈ (prep s).effs := by
-  obtain ⟨_, _, _, _, _, hearn⟩ := prep_spec (reachable_inv hc hr) hprov
+  obtain ⟨_, _, _, _, _, hearn⟩ := prep_spec (reachable_inv hc hr) (earners_are_not_escrow hr)
   exact hearn pv n he hn
 
 /-- After the preparation every context is paused with no batch in flight, and is otherwise unchanged. -/
@@ -56,12 +58,11 @@ theorem prep_pauses_every_context (s : State) (hnp : (prep s).panic = none) (c :
     ∃ x0, get s.ctxs c = some x0 ∧ x = resetCtx x0 := prep_ctxs s hnp c x hx
 
 /-- The preparation changes nothing else that is exported. -/
-theorem prep_keeps_other_records (hc : CfgOK cfg p) {s : State} (hr : Reachable cfg p h0 t0 s)
-    (hprov : ∀ a, (get s.earned a).isSome → a ≠ s.cfg.escrow) :
+theorem prep_keeps_other_records (hc : CfgOK cfg p) {s : State} (hr : Reachable cfg p h0 t0 s) :
     (prep s).s.params = s.params ∧ (prep s).s.defs = s.defs ∧ (prep s).s.bindings = s.bindings ∧
     (prep s).s.withdraw = s.withdraw ∧ (prep s).s.pricing = s.pricing ∧ (prep s).s.ownerBind = s.ownerBind ∧
     (prep s).s.owner = s.owner ∧ (prep s).s.ownerProv = s.ownerProv := by
-  obtain ⟨_, b', hs, _⟩ := prep_spec (reachable_inv hc hr) hprov
+  obtain ⟨_, b', hs, _⟩ := prep_spec (reachable_inv hc hr) (earners_are_not_escrow hr)
   rw [hs]; exact ⟨rfl, rfl, rfl, rfl, rfl, rfl, rfl, rfl⟩
 
 /-- Validation of the genesis exported after the preparation, *partial*: the two state requirements of
